@@ -329,6 +329,90 @@ impl Suite for Console {
                     Err(_) => json!({"r":"panic"}),
                 }
             }
+            "userpriv" => {
+                // the privilege WRITE path: UserManagerReq::{AddUser, UpdateUser} on the real actor,
+                // then Query (the UserDto a login would turn into the session's group)
+                use rnacos::common::model::privilege::{NamespacePrivilegeGroup, PrivilegeGroupOptionParam};
+                use rnacos::user::model::UserDto;
+                use rnacos::user::{UserManagerReq, UserManagerResult};
+                if self.node.is_none() {
+                    let env: Vec<(String, String)> = case["env"]
+                        .as_object()
+                        .map(|o| o.iter().map(|(k, v)| (k.clone(), v.as_str().unwrap_or("").to_owned())).collect())
+                        .unwrap_or_default();
+                    self.node = Some(Node::start(&env));
+                }
+                let node = self.node.as_ref().unwrap();
+                let app = node.app.clone();
+                let case = case.clone();
+                fn param(v: &Value) -> Option<PrivilegeGroupOptionParam<Arc<String>>> {
+                    if v.is_null() {
+                        return None;
+                    }
+                    let set = |x: &Value| {
+                        x.as_array().map(|a| {
+                            Arc::new(a.iter().map(|e| Arc::new(e.as_str().unwrap_or("").to_owned())).collect::<std::collections::HashSet<_>>())
+                        })
+                    };
+                    Some(PrivilegeGroupOptionParam {
+                        whitelist_is_all: v["wl_all"].as_bool(),
+                        whitelist: set(&v["wl"]),
+                        blacklist_is_all: v["bl_all"].as_bool(),
+                        blacklist: set(&v["bl"]),
+                    })
+                }
+                let r = catch_unwind(AssertUnwindSafe(|| {
+                    node.runner.block_on(async move {
+                        let keys = strs(&case["keys"]);
+                        let mut out = vec![];
+                        for u in case["users"].as_array().cloned().unwrap_or_default() {
+                            let name = Arc::new(u["name"].as_str().unwrap_or("").to_owned());
+                            let mut rows = vec![];
+                            for op in u["ops"].as_array().cloned().unwrap_or_default() {
+                                let user = UserDto {
+                                    username: name.clone(),
+                                    nickname: Some("n".to_owned()),
+                                    password: Some("pw-123456".to_owned()),
+                                    roles: Some(vec![Arc::new("1".to_owned())]),
+                                    ..Default::default()
+                                };
+                                let p = param(&op[1]);
+                                let req = if op[0].as_str() == Some("add") {
+                                    UserManagerReq::AddUser { user, namespace_privilege_param: p }
+                                } else {
+                                    UserManagerReq::UpdateUser { user: UserDto { password: None, ..user }, namespace_privilege_param: p }
+                                };
+                                let answered = matches!(app.user_manager.send(req).await, Ok(Ok(_)));
+                                if !answered {
+                                    rows.push(Value::Null);
+                                    continue;
+                                }
+                                match app.user_manager.send(UserManagerReq::Query { name: name.clone() }).await {
+                                    Ok(Ok(UserManagerResult::QueryUser(Some(dto)))) => {
+                                        let g = dto.namespace_privilege.unwrap_or_default();
+                                        let ng = NamespacePrivilegeGroup::new(g.clone());
+                                        let has = |s: &Option<Arc<std::collections::HashSet<Arc<String>>>>, k: &String| {
+                                            s.as_ref().map(|s| s.contains(&Arc::new(k.clone()))).unwrap_or(false)
+                                        };
+                                        let obs: Vec<Value> = keys
+                                            .iter()
+                                            .map(|k| json!([has(&g.whitelist, k), has(&g.blacklist, k), ng.check_permission(&Arc::new(k.clone()))]))
+                                            .collect();
+                                        rows.push(json!([g.get_flags(), obs]));
+                                    }
+                                    _ => rows.push(json!("query-failed")),
+                                }
+                            }
+                            out.push(Value::Array(rows));
+                        }
+                        json!({"r":"ok","out":out})
+                    })
+                }));
+                match r {
+                    Ok(v) => v,
+                    Err(_) => json!({"r":"panic"}),
+                }
+            }
             _ => json!({"r":"badcase"}),
         }
     }
